@@ -202,7 +202,42 @@ def correspondence(ctx):
 
 
 # ---------------------------------------------------------------- L2: the post-condition on the implementation
-def fits_failures(T, r, checks, tp):
+def spec_pure_output_stationary(T, r):
+    """independent statement: outside the template dims, no reduction column (all-zero in the output operand)
+    precedes a parallel one"""
+    A = r[-1].pattern.A
+    n, td = A.shape[1], T.num_dims
+    outer = [any(int(A[i, j]) != 0 for i in range(A.shape[0])) for j in range(max(0, n - td))] if td > 0 else []
+    seen_reduction = False
+    for par in outer:
+        if not par:
+            seen_reduction = True
+        elif seen_reduction:
+            return False
+    return True
+
+
+def spec_memory_flexible(T, r, sizes):
+    """independent statement: with temporal dims present, every (operand, size) pair has a result row with a
+    spatial stride of exactly 1 and only temporal strides that are multiples of ceil(8/size)"""
+    n, td = r.num_dims, T.num_dims
+    if not n > td:
+        return True
+    for p, size in zip(r, sizes):
+        q = -(-8 // size)
+        A = p.pattern.A
+        ok = False
+        for i in range(A.shape[0]):
+            temporal = any(int(A[i, j]) % q != 0 for j in range(n - td))
+            spatial = any(int(A[i, j]) == 1 for j in range(n - td, n))
+            if spatial and not temporal:
+                ok = True
+        if not ok:
+            return False
+    return True
+
+
+def fits_failures(T, r, checks, tp, cdesc=None):
     """independent statement of C16 on one returned schedule; returns list of (what, detail)."""
     out = []
     td, n = T.num_dims, r.num_dims
@@ -225,6 +260,11 @@ def fits_failures(T, r, checks, tp):
     for i, c in enumerate(checks):
         if not c(T, r):
             out.append(("check_on_returned", {"check": i}))
+    if cdesc is not None:
+        if cdesc["checks"] in ("pos", "both") and not spec_pure_output_stationary(T, r):
+            out.append(("not_pure_output_stationary", {}))
+        if cdesc["checks"] in ("mem", "both") and not spec_memory_flexible(T, r, cdesc["sizes"]):
+            out.append(("not_memory_flexible", {"sizes": cdesc["sizes"]}))
     return out
 
 
@@ -246,7 +286,7 @@ def check_case(tp, sp, cdesc):
             fails.append({"what": "fewer_dims_than_template", "klass": "fewer_dims_than_template", "template": tp, "schedule": sp,
                           "checks": cdesc, "detail": {"result_index": idx, "result": D.plain(r), "result_dims": r.num_dims, "template_dims": T.num_dims}})
             continue
-        for what, detail in fits_failures(T, r, py, tp):
+        for what, detail in fits_failures(T, r, py, tp, cdesc):
             fails.append({"what": what, "klass": None, "template": tp, "schedule": sp, "checks": cdesc,
                           "detail": {"result_index": idx, "result": D.plain(r), **detail}})
     return fails, len(out)
@@ -262,8 +302,41 @@ def search(ctx, deep=False):
         _, _, cdesc = D.gen_checks(rng, len(sp))
         f, nres = check_case(tp, sp, cdesc)
         fails += f
+        fails += check_predicates(tp, sp, cdesc)
         ctx.count({"L2": "fits", "template": tp, "schedule": sp, **cdesc, "results": nres}, nres > 0, f"l2{tp}{sp}{cdesc}", f"L2-{fam}")
     return _dedup(fails)
+
+
+def check_predicates(tp, sp, cdesc):
+    """the constraint predicates themselves against their independent statements, and Template.matches against
+    the exact row-space oracle, on the pair as the search would present it at the last level"""
+    from snaxc.ir.dart.scheduler import is_memory_flexible_enough, is_pure_output_stationary
+    T, s = D.mk_template(tp), D.mk_schedule(sp)
+    fails = []
+    if len(T) == 0 or len(s) == 0:
+        return fails
+    got = bool(is_pure_output_stationary(T, s))
+    if got != spec_pure_output_stationary(T, s):
+        fails.append({"what": "is_pure_output_stationary_wrong", "klass": None, "template": tp, "schedule": sp, "checks": cdesc,
+                      "detail": {"implementation": got, "statement": not got}})
+    got = bool(is_memory_flexible_enough(T, s, cdesc["sizes"]))
+    if got != spec_memory_flexible(T, s, cdesc["sizes"]):
+        fails.append({"what": "is_memory_flexible_enough_wrong", "klass": None, "template": tp, "schedule": sp, "checks": cdesc,
+                      "detail": {"implementation": got, "statement": not got, "sizes": cdesc["sizes"]}})
+    if len(T) == len(s) and s.num_dims >= T.num_dims:
+        td, n = T.num_dims, s.num_dims
+        want = True
+        for tpat, spat in zip(T, s):
+            sa, ta = spat.pattern.A[:, n - td:], tpat.pattern.A
+            drop = ta.shape[0] - sa.shape[0]
+            if drop > 0:
+                ta = ta[drop:, :]
+            want = want and D.same_rowspace(ta.tolist(), sa.tolist(), td)
+        got = bool(T.matches(s))
+        if got != want:
+            fails.append({"what": "matches_wrong", "klass": None, "template": tp, "schedule": sp, "checks": cdesc,
+                          "detail": {"implementation": got, "exact_rowspace": want}})
+    return fails
 
 
 def _dedup(fails):
@@ -295,6 +368,7 @@ def replay(ctx, obj):
     print("template:", tp)
     print("schedule:", sp, "checks:", f["checks"])
     res, n = check_case(tp, sp, f["checks"])
+    res += check_predicates(tp, sp, f["checks"])
     print("yielded:", n)
     for r in res:
         print("FAIL", r["what"], "class:", r["klass"], r["detail"])
